@@ -114,6 +114,35 @@ def misc_work(chunk):
         keys += list(tab)
     keys = list(dict.fromkeys(keys))
     args = [[k] for k in keys] + [[k.lower().replace('cm', 'cm ')] for k in keys] + [[' ' + k + ' '] for k in keys]
+    # the same keys with trailing zeros, a bare point or blanks on their numbers (rail heights, spacings, implement weights): '76.2cm' as '76.20cm',
+    # '84cm' as '84.0cm' / '84.cm', '7.5m' as '7.50m', '9m' as '9.0m', 'K' weights likewise - every number of the key at once and one at a time
+    import re as _re
+    num = _re.compile(r'(\d+(?:\.\d+)?)(cm|m|K|k|g)(?![A-Za-z])')
+
+    def respell(k, how, only=None):
+        n = [0]
+
+        def sub(m):
+            n[0] += 1
+            if only is not None and n[0] != only:
+                return m.group(0)
+            d, u = m.group(1), m.group(2)
+            if how == 'zero':
+                return (d + '0' if '.' in d else d + '.0') + u
+            if how == 'zeros':
+                return (d + '00' if '.' in d else d + '.00') + u
+            if how == 'point':
+                return (d if '.' in d else d + '.') + u
+            return d + ' ' + u
+        return num.sub(sub, k)
+    for k in keys:
+        for how in ('zero', 'zeros', 'point', 'blank'):
+            for only in (None, 1, 2, 3):
+                k2 = respell(k, how, only)
+                if k2 != k:
+                    args.append([k2])
+                    args.append([k2.lower()])
+    args = [list(x) for x in dict.fromkeys(tuple(a) for a in args)]
     args = [a for a in args if U().check_event_code(a[0].strip()) is not None]
     compare(acc, 'normalizeEventCode', U().normalize_event_code, args)
     return acc.pack()
